@@ -31,7 +31,7 @@ TIERS = {
     "thorough": {"shards": 16, "budget_s": 540},
 }
 MIN_EVENTS = {"quick": 400, "thorough": 1500}
-DECIDING = {"kalman_filter"}
+DECIDING = {"kalman_filter", "variant-law"}
 RULE = (
     "families L (linear, stationary, 1-3 observables with lags, 0-3 measurement shocks) and N (nonlinear, linearised, log "
     "observables); spans 1..16; masks none / random 30% / whole periods / leading block / everything / one observable never "
@@ -479,7 +479,23 @@ def make_case(rng, ant=False):
     return {"kind": "kalman", "family": family, "spec": spec, "steady": steady, "meta": meta, "source": rr["source"], "N": N,
             "mask": mask.astype(int).tolist(), "mask_kind": mask_kind, "stds": stds, "opts": opts, "tv_stds": tv, "shock_means": means,
             "data_seed": int(rng.integers(0, 10 ** 6)), "freq": str(rng.choice(["qq", "mm", "yy"])),
-            "hist": int(rng.integers(0, 2 ** 31)) if rng.random() < 0.4 else None}
+            "hist": int(rng.integers(0, 2 ** 31)) if rng.random() < 0.4 else None,
+            "mv": _make_mv(rng, spec, stds, family) if rng.random() < 0.2 else None}
+
+
+def _make_mv(rng, spec, stds, family):
+    """values of a second parameter variant: some structural parameters (family L) and some stds differ"""
+    par = {}
+    if family == "L":
+        for p in spec["params"]:
+            if (p["name"].startswith("rho") or p["name"].startswith("a")) and rng.random() < 0.6:
+                par[p["name"]] = float(np.round(p["value"] * rng.uniform(0.7, 0.95), 4))
+    sd = {k: float(np.round(v * rng.uniform(1.3, 2.5), 4)) for k, v in stds.items() if rng.random() < 0.6}
+    if not par and not sd and stds:
+        k = sorted(stds)[0]
+        sd[k] = float(np.round(stds[k] * 1.9, 4))
+    return {"params": par, "stds": sd}
+
 
 
 def build_model_and_data(c, case):
@@ -549,18 +565,98 @@ def build_model_and_data(c, case):
     return m, data, span
 
 
+def variant_law(c, case, m, data, span, res0):
+    """A model with two parameter variants (structural parameters and stds differ) filtered in ONE call: variant k of every
+    output equals the output of a single-variant model holding variant k's values (both single-variant runs go through the
+    monitored, exactly conditioned route). Added after seeded changes read variant 0's solution / shock covariance for
+    every variant."""
+    import irispie as ir
+    spec, family = case["spec"], case["family"]
+    mv = case["mv"]
+    p0 = {p["name"]: p["value"] for p in spec["params"]}
+    p1 = dict(p0, **mv["params"])
+    s0 = dict(case["stds"])
+    s1 = dict(s0, **mv["stds"])
+
+    def build(par, std, nvar=1):
+        with rt.quiet():
+            mm = ir.Simultaneous.from_string(case["source"], **spec["flags"])
+            if nvar > 1:
+                mm.alter_num_variants(nvar)
+            mm.assign(**par)
+            mm.assign(**std)
+            if family == "N":
+                mm.assign(**{n: (lvl, chg) for n, (lvl, chg) in case["steady"].items()})
+            mm.solve_steady()
+            mm.solve()
+        return mm
+    try:
+        m1 = build(p1, s1)
+        st = str(m1.get_solution().system_stability)
+        if "MULTIPLE" in st or "NO_" in st:
+            c.inconc("variant-law:second-variant-not-determinate")
+            return
+        m2 = build({k: [p0[k], p1[k]] for k in p0}, {k: [s0[k], s1[k]] for k in s0}, nvar=2)
+    except Exception as exc:
+        c.inconc(f"variant-law:build-failed:{type(exc).__name__}")
+        return
+    try:
+        with rt.quiet(), np.errstate(all="ignore"):
+            res1 = m1.kalman_filter(data, span, return_info=True, **case["opts"])      # monitored
+            _BUSY["on"] = True
+            try:
+                res2 = m2.kalman_filter(data, span, return_info=True, **case["opts"])  # two variants in one call
+            finally:
+                _BUSY["on"] = False
+    except Exception as exc:
+        c.inconc(f"variant-law:filter-raised:{type(exc).__name__}")
+        return
+    out2, info2 = res2
+    sp = tuple(span)
+    for k, (outk, infok) in enumerate((res0, res1)):
+        ik = info2[k] if isinstance(info2, (list, tuple)) else info2
+        c.event("variant-law", "joint-call==single-variant-models", key=("vlaw", family, k, bool(case["opts"].get("rescale_variance")), bool(mv["params"]), bool(mv["stds"])), nontrivial=k >= 1)
+        a, b = float(ik["neg_log_likelihood"]), float(infok["neg_log_likelihood"])
+        if not ((np.isnan(a) and np.isnan(b)) or abs(a - b) <= 1e-7 * (1 + abs(b))):
+            c.violation("variant-law:likelihood-differs", f"variant {k}: neg_log_likelihood {a!r} in the two-variant call, {b!r} for the single-variant model with the same values", case=case)
+            return
+        for part in ("predict_med", "predict_std", "update_med", "update_std", "smooth_med", "smooth_std", "predict_err"):
+            if part not in outk or part not in out2:
+                continue
+            for name in outk[part].keys():
+                if name not in out2[part] or name.startswith("std_"):
+                    continue
+                x = np.asarray(out2[part][name].get_data(sp), dtype=float)
+                y = np.asarray(outk[part][name].get_data(sp), dtype=float)[:, 0]
+                if x.ndim != 2 or x.shape[1] < 2:
+                    c.violation("variant-law:output-has-one-variant", f"{part}[{name}] has shape {x.shape} for a two-variant model", case=case)
+                    return
+                xk = x[:, k]
+                both = np.isfinite(xk) & np.isfinite(y)
+                if (np.isfinite(xk) != np.isfinite(y)).any() or (both.any() and np.max(np.abs(xk[both] - y[both])) > 1e-7 * (1 + np.max(np.abs(y[both])))):
+                    err = np.max(np.abs(xk[both] - y[both])) if both.any() else float("nan")
+                    c.violation(f"variant-law:{part}-differs", f"variant {k}: {part} of {name} differs by {err:.3e} between the two-variant call and the single-variant model with the same values", case=case)
+                    return
+
+
+_BUSY = {"on": False}
+
+
 def run_case(c, case):
     with c.running(case):
         built = build_model_and_data(c, case)
         if built is None:
             return
         m, data, span = built
+        res0 = None
         try:
             with rt.quiet(), np.errstate(all="ignore"):
-                m.kalman_filter(data, span, return_info=True, **case["opts"])
+                res0 = m.kalman_filter(data, span, return_info=True, **case["opts"])
         except Exception as exc:
             c.inconc(f"kalman_filter:raised:{type(exc).__name__}")
             c.note(f"kalman_filter:raised:{type(exc).__name__}:{str(exc)[:80]}")
+        if res0 is not None and case.get("mv"):
+            variant_law(c, case, m, data, span, res0)
 
 
 def replay(c, case):
